@@ -128,6 +128,9 @@ type Check struct {
 	knownFirst map[*KnownFinding]Failure
 	dropped    int
 	Deadline   time.Time // internal deadline; when hit, Exhaustive=false and exit 0
+	// Confirm re-executes one failure without the explorer (the property's Replay); every
+	// reported violation is re-run 4 more times and the result printed with it.
+	Confirm func(f Failure) (kind, what string)
 	hitCap     atomic.Bool
 }
 
@@ -392,6 +395,16 @@ func (c *Check) Finish() int {
 			path := c.writeReplay(f)
 			fmt.Printf("VIOLATION property=%s replay=%s\n", c.ID, path)
 			fmt.Printf("  family=%s kind=%s config=%s input=%q\n  %s\n", f.Family, f.Kind, f.Config, trunc(f.Input, 300), trunc(f.What, 600))
+			if c.Confirm != nil && printed < 12 {
+				again := 0
+				for r := 0; r < 4; r++ {
+					var k string
+					if p := Recover(func() { k, _ = c.Confirm(*f) }); p != "" || k != "" {
+						again++
+					}
+				}
+				fmt.Printf("  re-run without the explorer: failed again in %d of 4 replays\n", again)
+			}
 			printed++
 		}
 		if len(fs) > 3 {
